@@ -276,6 +276,136 @@ fn run_program(ctx: &mut Ctx, vm: &mut Vm) {
 }
 
 // ---------------------------------------------------------------------------------------------
+// (D) programs that build a stack frame (and optionally a heap block) with real CFEI / ALOC / MCP, copy valid
+// instruction words into [$ssp, $sp) (and the heap) and then jump to: the copied words, $ssp exactly, $sp-4, $sp,
+// $ssp-4 (legitimately executable), the heap, below $is, an unaligned address inside the frame.
+// Every step is checked on the implementation: the instruction at $pc is executed iff its 4 bytes are allocated
+// memory and $is <= $pc < $ssp; otherwise the panic is the specified one and no register changes.
+// Steps whose opcode has a Lean execution model (ALU, jumps) and every failing fetch are also compared with the model
+// (request `f`: full stack + heap image), so the model's `fetchInstruction` is what answers those lines.
+
+fn frame_program(ctx: &mut Ctx, vm: &mut Vm) {
+    let pre_words = ctx.rng.below(4);
+    let is = 4 * pre_words;
+    let filler = |ctx: &mut Ctx| -> u32 {
+        match ctx.rng.below(5) { 0 => ins("NOOP", &[]), 1 => ins("ADDI", &[22, 22, 1]), 2 => ins("MOVI", &[23, 7]), 3 => ins("JI", &[0]), _ => ins("ADD", &[26, 22, 1]) }
+    };
+    let payload: Vec<u32> = (0..1 + ctx.rng.below(4)).map(|_| filler(ctx)).collect();
+    let plen = 4 * payload.len() as u64;
+    let off = 4 * ctx.rng.below(3);                       // payload offset inside the frame
+    let frame = off + plen + 4 * ctx.rng.below(3);        // frame size in bytes (> 0)
+    let heap_len: u64 = if ctx.rng.chance(1, 2) { 0 } else { plen + 8 * ctx.rng.below(3) };
+    let variant = ctx.rng.below(9);
+    let form = ctx.rng.below(3);
+    // code (fixed length per shape, so addresses are known before assembling)
+    let n_code = 1 + (if heap_len > 0 { 3 } else { 0 }) + 4 + 2;
+    let code_end = is + 4 * n_code;
+    let src = code_end;                                   // payload image sits right after the code, inside [$is, $ssp)
+    let ssp = code_end + plen;
+    let sp = ssp + frame;
+    let hp = VM_MAX_RAM - heap_len;
+    let target: u64 = match variant {
+        0 | 1 => ssp + off,                               // the copied instruction words
+        2 => ssp,
+        3 => sp - 4,
+        4 => sp,
+        5 => ssp - 4,                                     // last word of the executable region: executes
+        6 if heap_len > 0 => hp,
+        7 if pre_words > 0 => is - 4 * (1 + ctx.rng.below(pre_words)),
+        8 => ssp + off + 1 + ctx.rng.below(3),            // unaligned, inside the frame
+        _ => ssp + 4 * ctx.rng.below(frame / 4 + 1),
+    };
+    let mut code: Vec<u32> = vec![ins("CFEI", &[frame as u32])];
+    if heap_len > 0 { code.push(ins("MOVI", &[25, heap_len as u32])); code.push(ins("ALOC", &[25])); }
+    code.push(ins("MOVI", &[17, src as u32]));
+    code.push(ins("MOVI", &[18, plen as u32]));
+    code.push(ins("ADDI", &[19, SSP as u32, off as u32]));
+    code.push(ins("MCP", &[19, 17, 18]));
+    if heap_len > 0 { code.push(ins("MCP", &[HP as u32, 17, 18])); }
+    // the jump
+    let jump_idx = code.len() as u64 + 1;
+    let aligned_fwd = target % 4 == 0 && target >= is;
+    code.push(ins("MOVI", &[20, if form == 1 && aligned_fwd { ((target - is) / 4) as u32 } else { (target & 0x3FFFF) as u32 }]));
+    let jpc = is + 4 * jump_idx;
+    code.push(match form {
+        1 if aligned_fwd => ins("JMP", &[20]),
+        2 if target % 4 == 0 && target > jpc && (target - jpc) / 4 - 1 < (1 << 18) => ins("JMPF", &[0, ((target - jpc) / 4 - 1) as u32]),
+        2 if target % 4 == 0 && target < jpc => ins("JMPB", &[0, ((jpc - target) / 4 - 1) as u32]),
+        0 if variant == 6 && heap_len > 0 => ins("JAL", &[0, HP as u32, 0]),
+        _ => if target == hp && heap_len > 0 { ins("JAL", &[24, HP as u32, 0]) } else { ins("JAL", &[if ctx.rng.chance(1, 2) { 0 } else { 24 }, 20, 0]) },
+    });
+    while (code.len() as u64) < n_code { code.insert(code.len() - 2, ins("NOOP", &[])); }
+    assert_eq!(code.len() as u64, n_code);
+    // memory image: words below $is, code, payload image; the stack is allocated exactly up to $ssp (CFEI grows it)
+    let mut image: Vec<u8> = vec![];
+    for _ in 0..pre_words { image.extend_from_slice(&filler(ctx).to_be_bytes()); }
+    for w in code.iter().chain(payload.iter()) { image.extend_from_slice(&w.to_be_bytes()); }
+    assert_eq!(image.len() as u64, ssp);
+    vm.memory_mut().reset();
+    let extra = if ctx.rng.chance(1, 3) { 0 } else { 8 * ctx.rng.below(4) };   // allocated-but-unused stack above $sp
+    vm.memory_mut().grow_stack(ssp).expect("grow_stack");
+    vm.memory_mut().write_noownerchecks(0u64, image.len()).expect("image").copy_from_slice(&image);
+    let mut regs = base_regs();
+    regs[IS] = is; regs[PC] = is; regs[SSP] = ssp; regs[SP] = ssp; regs[HP] = VM_MAX_RAM;
+    regs[FLAG] = 0;
+    ctx.count("frame.program"); ctx.count(&format!("frame.target-variant.{variant}"));
+    let mut grown = false;
+    for _step in 0..(n_code + 8) {
+        // snapshot of the real memory
+        let stack: Vec<u8> = vm.memory().stack_raw().to_vec();
+        let stack_len = stack.len() as u64;
+        let cur_hp = regs[HP];
+        let heap: Vec<u8> = if cur_hp < VM_MAX_RAM { vm.memory().read(cur_hp, (VM_MAX_RAM - cur_hp) as usize).map(|b| b.to_vec()).unwrap_or_default() } else { vec![] };
+        let pc = regs[PC];
+        let byte_at = |a: u64| -> Option<u8> { if a < stack_len { Some(stack[a as usize]) } else if a >= cur_hp && a < VM_MAX_RAM { heap.get((a - cur_hp) as usize).copied() } else { None } };
+        let readable = pc.checked_add(4).map_or(false, |e| e <= VM_MAX_RAM && (e <= stack_len || pc >= cur_hp));
+        let in_region = pc >= regs[IS] && pc < regs[SSP];
+        let raw: Option<u32> = if readable { Some(u32::from_be_bytes([byte_at(pc).unwrap_or(0), byte_at(pc + 1).unwrap_or(0), byte_at(pc + 2).unwrap_or(0), byte_at(pc + 3).unwrap_or(0)])) } else { None };
+        let row_here = raw.and_then(|w| row_by_op((w >> 24) as u8));
+        let modelled = !(readable && in_region) || row_here.map_or(true, |r| JUMPS.contains(&r.1) || ALU.contains(&r.1));
+        let req = format!("f {} {} {} {} {}", stack_len, cur_hp, crate::util::hex(&stack), crate::util::hex(&heap), fmt_regs(&regs));
+        let before = regs;
+        vm.registers_mut().copy_from_slice(&regs);
+        let res = match ctx.guard(|| { let r = vm.execute::<false>(); status(&r) }) {
+            Ok(s) => s,
+            Err(msg) => { ctx.oracle_fail("panic-execute", &req, &msg); *vm = new_vm(); return; }
+        };
+        let mut after = [0u64; NREG];
+        after.copy_from_slice(vm.registers());
+        // ---- oracle on the implementation: executed iff allocated and $is <= $pc < $ssp ----
+        let place = if pc >= before[SSP] && pc < before[SP] { "stack-frame" } else if pc >= before[SP] && pc < cur_hp { "above-sp" } else if pc >= cur_hp { "heap" } else if pc < before[IS] { "below-is" } else { "code" };
+        if !readable {
+            if res != "UninitalizedMemoryAccess" && res != "MemoryOverflow" { ctx.oracle_fail(&format!("fetch-unallocated-executed-{place}"), &req, &format!("$pc={pc} status {res}")); }
+            ctx.count(&format!("frame.fetch-unreadable.{place}"));
+        } else if !in_region {
+            if res != "MemoryNotExecutable" { ctx.oracle_fail(&format!("executed-outside-region-{place}"), &req, &format!("$pc={pc} $is={} $ssp={} $sp={} $hp={} status {res}", before[IS], before[SSP], before[SP], cur_hp)); }
+            else if after != before { ctx.oracle_fail("not-executable-changed-state", &req, "registers changed"); }
+            ctx.count(&format!("frame.not-executable.{place}"));
+        } else {
+            if res == "MemoryNotExecutable" { ctx.oracle_fail("executable-region-rejected", &req, &format!("$pc={pc} $is={} $ssp={}", before[IS], before[SSP])); }
+            if let (Some(w), Some(r)) = (raw, row_here) {
+                if JUMPS.contains(&r.1) && res != "InvalidInstruction" { check_jump(ctx, r.1, w, &before, &res, &after, &req); }
+                else if res == "ok" && !TERMINAL.contains(&r.1) && after[PC] != pc + 4 { ctx.oracle_fail("nonjump-pc-not-advanced", &req, &format!("{} moved $pc {pc} -> {}", r.1, after[PC])); }
+            }
+            ctx.count("frame.executed-in-region");
+        }
+        if modelled {
+            let mut key = pc.to_be_bytes().to_vec(); key.extend_from_slice(&stack); key.extend_from_slice(&before[SSP].to_be_bytes()); key.extend_from_slice(&before[SP].to_be_bytes());
+            ctx.distinct(&key);
+            ctx.emit(&req, &format!("{res}{}", fmt_diff(&before, &after)));
+        } else { ctx.count("frame.setup-step(unmodelled-opcode)"); }
+        if res != "ok" { break; }
+        regs = after;
+        regs[GGAS] = GAS; regs[CGAS] = GAS;
+        if !grown && regs[SP] > regs[SSP] {
+            grown = true;
+            // allocated but unused stack above $sp (so that `$sp` itself can be a readable address)
+            if extra > 0 { let _ = vm.memory_mut().grow_stack(regs[SP] + extra); }
+        }
+    }
+}
+
+// ---------------------------------------------------------------------------------------------
 // (C) every non-jump opcode: success => $pc + 4 (oracle only; these opcodes have no Lean execution model here)
 
 fn nonjump_sweep(ctx: &mut Ctx, vm: &mut Vm) {
@@ -319,6 +449,7 @@ fn nonjump_sweep(ctx: &mut Ctx, vm: &mut Vm) {
 }
 
 pub fn run(ctx: &mut Ctx) {
+    if std::env::var("FV_DEBUG").is_ok() { std::panic::set_hook(Box::new(|i| eprintln!("panic: {i}"))); }
     let mut vm = new_vm();
     // corpus: boundary cases of each mode
     let m = VM_MAX_RAM;
@@ -356,6 +487,8 @@ pub fn run(ctx: &mut Ctx) {
     }
     // (B) programs
     for _ in 0..ctx.n(400, 8000) { run_program(ctx, &mut vm); }
+    // (D) stack-frame / heap / below-$is jump targets
+    for _ in 0..ctx.n(600, 12_000) { frame_program(ctx, &mut vm); }
     // (C) non-jump sweep
     nonjump_sweep(ctx, &mut vm);
 }
